@@ -6,6 +6,15 @@ PD = "core/src/report/price_db.rs"
 IMPL_EX = ("impl Exchange {", "}")
 IMPL_CP = ("impl ComputedPosting {", "}")
 
+SY = "core/src/syntax.rs"
+COW = ("R9-cow-str", "re:Cow<str>", "String", None)
+DECL_TYPES = [
+    U("syntax::AccountDetail", SY, [r"pub enum AccountDetail<'i>"], rewrites=[COW]),
+    U("syntax::AccountDeclaration", SY, [r"pub struct AccountDeclaration<'i>"], rewrites=[COW]),
+    U("syntax::CommodityDetail", SY, [r"pub enum CommodityDetail<'i>"], rewrites=[COW]),
+    U("syntax::CommodityDeclaration", SY, [r"pub struct CommodityDeclaration<'i>"], rewrites=[COW]),
+]
+
 BK_TYPES = [
     U("BookKeepError", BK, [r"pub enum BookKeepError\b"], rewrites=[("R9-stub-type", "InternError", "u8", 2)]),
     U("report::Posting(type)", TR, [r"pub struct Posting<'ctx>"]),
@@ -193,5 +202,33 @@ BOOKKEEP = [
             // C01/C03: accepted => one omitted amount absorbs exactly the negated sum of the balancing values,
             //          or the rounded totals are balanced
             r matches Ok(t) ==> accepted(&*final(ctx), t.postings@, txn.posts@),   // @add_transaction.accepted_only_if_deduced_or_balanced
+"""),
+    U("ProcessAccumulator(type)", BK, [r"struct ProcessAccumulator<'ctx>"]),
+    U("ProcessAccumulator::process", BK, [r"impl<'ctx> ProcessAccumulator<'ctx>", r"fn process\b"], fn="process", wrap=("impl ProcessAccumulator {", "}"),
+      rewrites=[RET(),
+                ("R9-stub-path", "re:syntax::(AccountDetail|CommodityDetail)::", "\\1::", None),
+                ("R11-ctor-as-fn", ".map_err(BookKeepError::InvalidAccount)", ".map_err(|e: u8| -> (b: BookKeepError) ensures b == BookKeepError::InvalidAccount(e) { BookKeepError::InvalidAccount(e) })", 2),
+                ("R11-ctor-as-fn", ".map_err(BookKeepError::InvalidCommodity)", ".map_err(|e: u8| -> (b: BookKeepError) ensures b == BookKeepError::InvalidCommodity(e) { BookKeepError::InvalidCommodity(e) })", 2)],
+      loops={0: """
+                    invariant
+                        ctx.accounts.registered(canonical),
+                        ctx.accounts.resolved(account.name@) is Some,
+                        forall|n: Seq<char>| old(ctx).accounts.resolved(n) is Some ==> ctx.accounts.resolved(n) == old(ctx).accounts.resolved(n),
+""", 1: """
+                    invariant
+                        ctx.commodities.registered(canonical),
+                        ctx.commodities.resolved(commodity.name@) is Some,
+                        forall|n: Seq<char>| old(ctx).commodities.resolved(n) is Some ==> ctx.commodities.resolved(n) == old(ctx).commodities.resolved(n),
+"""},
+      contract="""
+        ensures
+            // C12: declaring as canonical a name that is already an alias is rejected (accounts and commodities alike)
+            (entry is Account && old(ctx).accounts.is_alias(entry->Account_0.name@)) ==> r is Err,            // @process.account_declared_over_alias_rejected
+            (entry is Commodity && old(ctx).commodities.is_alias(entry->Commodity_0.name@)) ==> r is Err,       // @process.commodity_declared_over_alias_rejected
+            // an accepted declaration registers the name as canonical; names known before keep their meaning
+            (entry is Account && r is Ok) ==> final(ctx).accounts.resolved(entry->Account_0.name@) is Some,    // @process.account_registered
+            (entry is Commodity && r is Ok) ==> final(ctx).commodities.resolved(entry->Commodity_0.name@) is Some,   // @process.commodity_registered
+            entry is Account ==> forall|n: Seq<char>| old(ctx).accounts.resolved(n) is Some ==> final(ctx).accounts.resolved(n) == old(ctx).accounts.resolved(n),
+            entry is Commodity ==> forall|n: Seq<char>| old(ctx).commodities.resolved(n) is Some ==> final(ctx).commodities.resolved(n) == old(ctx).commodities.resolved(n),
 """),
 ]
